@@ -439,6 +439,28 @@ func c09Field(c *core.Ctx, k *core.Case) {
 			if !stateEq(prior, &after, false) {
 				fail("getter-mutates", fmt.Sprintf("Get%s changed the element: {%s} -> {%s}", field, prior, &after))
 			}
+			// the value is a window of the element's OWN data (or of the same receive area): the
+			// setter must behave as if it had been given a private copy (copy semantics)
+			if isSlice && ev.hasBuffer && fw > 1 {
+				for _, shift := range []int{-2, -1, 1, 2} {
+					ev.set(prior)
+					cur := ev.buffer.Bytes()
+					lo := sp.Octet + shift
+					if lo < 0 || lo+fw > len(cur) {
+						continue
+					}
+					val := cloneB(cur[lo : lo+fw]) // what the argument holds before the call
+					setM.Call([]reflect.Value{reflect.ValueOf(cur[lo : lo+fw : lo+fw])})
+					ev.get(&post)
+					evals++
+					want.data = append(want.data[:0], prior.data...)
+					copy(want.data[sp.Octet:], val)
+					if len(post.data) != len(want.data) || !bytes.Equal(post.data, want.data) {
+						fail("setter-overlapping-argument", fmt.Sprintf("prior {%s}, Set%s(window of the element's own buffer at octet %d): got {%s}, copying the argument as it was gives {%s}", prior, field, lo, &post, &want))
+						break
+					}
+				}
+			}
 			dict := dictOfWidth(fw)
 			if len(dict) > 16 {
 				dict = dict[:16]
